@@ -1147,9 +1147,15 @@ static void uv__read(uv_stream_t* stream) {
 #endif
       stream->read_cb(stream, nread, &buf);
 
-      /* Return if we didn't fill the buffer, there is no more data to read. */
+      /* Return if we didn't fill the buffer, there is no more data to read.
+       * On a UNIX domain socket a short read proves nothing: read()/recvmsg()
+       * stops behind a message that carried descriptors (SCM_RIGHTS) even when
+       * more data is queued, so don't let uv__stream_io() turn POLLHUP into
+       * UV_EOF there; the next read() returns 0 once the queue is empty.
+       */
       if (nread < buflen) {
-        stream->flags |= UV_HANDLE_READ_PARTIAL;
+        if (stream->type != UV_NAMED_PIPE)
+          stream->flags |= UV_HANDLE_READ_PARTIAL;
         return;
       }
     }
